@@ -16,7 +16,8 @@ Has(e, k) == k \in DOMAIN e
 Verdict(e) ==
   LET K == MkK(e)
       exp == SatStar(K, e.f)
-  IN IF e.logic = "CTL" /\ SatCTL(K, e.f) # exp THEN [v |-> "ORACLE"]
+  IN IF Has(e.out, "skipped") THEN [v |-> "ok"]        \* per-case time limit hit: counted by the harness, not judged
+     ELSE IF e.logic = "CTL" /\ SatCTL(K, e.f) # exp THEN [v |-> "ORACLE"]
      ELSE IF Has(e.out, "exc") THEN [v |-> "violation:exception " \o e.out.exc, exp |-> exp]
      ELSE IF ~e.out.isset THEN [v |-> "violation:not-a-set", exp |-> exp]
      ELSE IF e.out.foreign # 0 THEN [v |-> "violation:foreign-elements", exp |-> exp]
@@ -25,7 +26,7 @@ Verdict(e) ==
 \* C02: every excluded state of an LTL answer is certified by a concrete lasso satisfying
 \* "not g" under the transliterated documentation semantics; every included one has none
 Cert(e) ==
-  IF ~(Has(e, "cert") /\ e.f[1] = "A") THEN [unc |-> {}, bad |-> {}]
+  IF ~(Has(e, "cert") /\ e.f[1] = "A") \/ Has(e.out, "skipped") THEN [unc |-> {}, bad |-> {}]
   ELSE LET K == MkK(e)
            exp == SatStar(K, e.f)
            h == Elim(K, <<"not", e.f[2]>>)
